@@ -1,5 +1,9 @@
 mod c01;
 mod c03;
+mod c04;
+mod c05;
+mod c10;
+mod hookutil;
 mod convert;
 mod ctx;
 mod findings;
@@ -80,6 +84,9 @@ fn real_main(args: Vec<String>) -> i32 {
                 "C01" => c01::run(&ctx, false),
                 "C02" => c01::run(&ctx, true),
                 "C03" => c03::run(&ctx),
+                "C04" => c04::run(&ctx),
+                "C05" => c05::run(&ctx),
+                "C10" => c10::run(&ctx),
                 _ => Err(format!("no check for {}", prop)),
             };
             match r {
